@@ -601,6 +601,42 @@ def check_dispatch(ctx):
            "reactant count = number of non-empty '*'-separated names", '')
 
 
+def check_arguments_untouched(ctx):
+    """Which propensity class a reaction gets, and from which keys it is initialised, is decided from the dictionary the caller hands
+    to create_reaction.  The method may complete that dictionary (the default 'species' string of mass action) only in its own copy:
+    a key written into the caller's object would be found there by the next reaction declared with the same dictionary."""
+    f = ctx.fn('types:Model.create_reaction')
+    where = ctx.loc('types', f)
+    problems = []
+    for a in f.args.args[1:]:
+        nm = a.arg
+        if 'dict' not in nm:
+            continue
+        copies = [n.lineno for n in ast.walk(f) if isinstance(n, ast.Assign) and len(n.targets) == 1 and isinstance(n.targets[0], ast.Name)
+                  and n.targets[0].id == nm and isinstance(n.value, ast.Call) and
+                  ((src(n.value.func) == 'dict' and [src(x) for x in n.value.args] == [nm]) or src(n.value.func) in ('%s.copy' % nm, 'copy.copy', 'copy.deepcopy'))]
+        first_copy = min(copies) if copies else None
+        for n in ast.walk(f):
+            w = None
+            if isinstance(n, (ast.Assign, ast.AugAssign)):
+                for t in (n.targets if isinstance(n, ast.Assign) else [n.target]):
+                    if isinstance(t, ast.Subscript) and isinstance(t.value, ast.Name) and t.value.id == nm:
+                        w = util.stmt_key(n)[:60]
+            if isinstance(n, ast.Delete):
+                for t in n.targets:
+                    if isinstance(t, ast.Subscript) and isinstance(t.value, ast.Name) and t.value.id == nm:
+                        w = 'del %s' % src(t)
+            if isinstance(n, ast.Call) and isinstance(n.func, ast.Attribute) and isinstance(n.func.value, ast.Name) and n.func.value.id == nm \
+                    and n.func.attr in ('setdefault', 'update', 'pop', 'popitem', 'clear', '__setitem__'):
+                w = src(n)[:60]
+            if w is not None and (first_copy is None or n.lineno < first_copy):
+                problems.append("`%s` writes into the caller's %s (line %d)%s" % (w, nm, n.lineno,
+                                '' if first_copy is None else ', before the copy at line %d' % first_copy))
+    ctx.ob('R1.3-dispatch', 'arguments-untouched', not problems, where,
+           'create_reaction completes the parameter dictionaries only in its own copies, never in the objects the caller handed in',
+           '; '.join(sorted(set(problems))[:3]))
+
+
 # ----------------------------------------------------------------------------- R1.4 interface loops
 IFACE_SLOTS = {'compute_propensities': ('get_propensity', False),
                'compute_volume_propensities': ('get_volume_propensity', True),
@@ -770,6 +806,7 @@ def check(ctx):
         else:
             ctx.note('%s: formulas not compared because the binding obligations failed' % cls)
     check_dispatch(ctx)
+    check_arguments_untouched(ctx)
     for cls in ('ModelCSimInterface', 'SafeModelCSimInterface'):
         for slot in IFACE_SLOTS:
             check_iface_loop(ctx, cls, slot)
